@@ -503,10 +503,11 @@ func (m *Msg) SetGenHeader(header Header, values ...string) {
 	if m.genHeader == nil {
 		m.genHeader = make(map[Header][]string)
 	}
-	for i, val := range values {
-		values[i] = m.encodeString(val)
+	encoded := append([]string(nil), values...)
+	for i, val := range encoded {
+		encoded[i] = m.encodeString(val)
 	}
-	m.genHeader[header] = values
+	m.genHeader[header] = encoded
 }
 
 // SetHeaderPreformatted sets a generic header field of the Msg, which content is already preformatted.
